@@ -574,7 +574,8 @@ def d5(ctx, rep):
     sr = prog.method(VINE, '_sample_row')
     # values passed to the marginal quantile functions: clipped probabilities / uniform draws
     ppf_calls = [c for c in walk_no_nested(sr.node) if isinstance(c, ast.Call) and isinstance(c.func, ast.Subscript) and is_self_attr(c.func.value, sr.self_name, 'ppfs')]
-    rep.floor('D5.schema', 'marginal quantile calls in _sample_row', len(ppf_calls), 1)
+    if not ppf_calls:
+        rep.undecided('D5.schema', sr, sr.node.name, 'no call of self.ppfs[...] found in _sample_row: how a drawn probability becomes a value is not derived', construct='marginal quantile calls')
     cur_ok = all(isinstance(c.func.slice, ast.Name) and c.func.slice.id == 'current' for c in ppf_calls)
     rep.check('D5.schema', sr, ppf_calls[0] if ppf_calls else sr.node.name, cur_ok, 'the quantile function of the node being sampled is used',
               'a value is mapped through the quantile function of another variable', construct='ppf index')
